@@ -81,6 +81,32 @@ def run(tier, work, replay=None):
                 traces.append([dict(c, e="case"), {"e": "observed", "present": bool(rec["present"]), "wire": rec["wire"],
                                                    "serlog": rec["serlog"], "delivered": rec["delivered"]}])
                 owners.append((feats, rec))
+    # ---- pruned package: include_all_inputs = false and ONLY the operations whose variable is the outer input, so that the
+    #      input holding the custom scalar is reached through another input only (its scalar imports must still be emitted)
+    vc.SCALARS_CFG.clear()
+    vc.SCALARS_CFG.update(IMPORT_STYLES["relative"])
+    ncases = [c for c in all_cases if c["pos"] == "nested"]
+    for variant, opts in (("sync_pruned", {"async_client": False, "include_all_inputs": False, "include_all_enums": False}),):
+        job, r, sdl = vc.generate_project(work, ncases, opts, f"pruned_{variant}", only_ops=["OpN_"])
+        feats0 = {"variant": variant, "style": "relative", "stage": "pruned"}
+        if r["exc_class"]:
+            v.violation(dict(feats0, stage="generate"), f"gen_crash:{r['exc_class']}", r["exc_msg"])
+            continue
+        try:
+            o = vc.drive(job, ncases, sdl, False)
+        except Machinery as ex:
+            v.violation(dict(feats0, stage="load"), "package_does_not_load", str(ex)[-600:])
+            continue
+        for c, rec in zip(ncases, o["results"]):
+            n += 1
+            feats = {"w": c["w"], "kind": c["kind"], "pos": c["pos"], "state": c["state"], "variant": variant, "style": "relative",
+                     "islist": c["w"] not in ("T", "T!")}
+            if "error" in rec or rec.get("present") is None:
+                v.violation(feats, "pruned_package_call_failed", rec)
+                continue
+            log = rec.get("serlog", [])
+            if c["kind"] == "ser" and log != ["leaf"] * leaves(c):
+                v.violation(feats, "serialize_log_differs", dict(rec, expected_calls=leaves(c)))
     rs, rejected, inv = validate_traces_parallel("Variables_Trace", "Variables_Trace.cfg", traces, work.sub("tv"), chunk_size=600)
     for r in rs:
         v.add_tlc(r, "Variables_Trace")
